@@ -60,6 +60,10 @@ type bCfg struct {
 	SyncAns  []string `json:"sync_answers"`
 	// Faults: store effects that may be made to fail (one-shot, armed by an event)
 	Faults []string `json:"faults,omitempty"`
+	// Pauses: store effects at which an ingest may be parked INSIDE Store.put (one-shot, armed by
+	// the event fault:pause-<kind>); while it is parked every other event stays enabled, then
+	// resume:ok lets the effect happen and resume:fail makes it fail
+	Pauses []string `json:"pauses,omitempty"`
 	// Avail: the availability path is driven too; GetAns are the getter answers offered
 	Avail  bool     `json:"avail,omitempty"`
 	GetAns []string `json:"get_answers,omitempty"`
@@ -75,8 +79,8 @@ func (c bCfg) String() string {
 	for _, b := range c.Blocks {
 		bs = append(bs, b.String())
 	}
-	return fmt.Sprintf("%s{archival=%v blocks=%s sources=%v queue=%d fetch=%v sync=%v faults=%v avail=%v get=%v stop=%v bcastErr=%v}",
-		c.Name, c.Archival, strings.Join(bs, " "), c.Sources, c.Queue, c.FetchAns, c.SyncAns, c.Faults, c.Avail, c.GetAns, c.Stop, c.BcastErr)
+	return fmt.Sprintf("%s{archival=%v blocks=%s sources=%v queue=%d fetch=%v sync=%v faults=%v pauses=%v avail=%v get=%v stop=%v bcastErr=%v}",
+		c.Name, c.Archival, strings.Join(bs, " "), c.Sources, c.Queue, c.FetchAns, c.SyncAns, c.Faults, c.Pauses, c.Avail, c.GetAns, c.Stop, c.BcastErr)
 }
 
 // ---------------------------------------------------------------- block cache
@@ -181,6 +185,13 @@ type bCall struct {
 }
 
 type bReport struct{ src, result string }
+
+// bPause is an ingest parked inside Store.put at one store effect.
+type bPause struct {
+	op, path string
+	actor    string // listener | avail
+	ch       chan error
+}
 
 type bAnn struct {
 	H   uint64
@@ -309,6 +320,8 @@ type bSys struct {
 	actor             string            // who runs because of the event being applied: listener | avail | ""
 	fired             map[string]string // actor -> fault kind that fired during the current event
 	armed             string
+	paused            *bPause
+	resumed           string // actor whose parked put was released by the event being applied
 
 	// availability path
 	avRunning bool
@@ -559,7 +572,40 @@ func (s *bSys) onEffect(op, path string) error {
 		s.fired[s.actor] = op
 		return errors.New("verif: injected I/O error")
 	}
+	if s.armed == "pause-"+op && s.paused == nil {
+		// park the calling goroutine (it holds the store's stripe locks of this put) until the
+		// explorer resumes it; blocking on a channel is durable blocking for synctest
+		s.armed = ""
+		p := &bPause{op: op, path: path, actor: s.actor, ch: make(chan error)}
+		s.paused = p
+		s.out.add("store-effect-paused:" + op)
+		s.mu.Unlock()
+		err := <-p.ch
+		s.mu.Lock()
+		return err
+	}
 	return nil
+}
+
+func (s *bSys) pausedNow() *bPause {
+	s.mu.Lock()
+	defer s.mu.Unlock()
+	return s.paused
+}
+
+// pausedHeight is the height whose put is parked (its stripe locks are held: the harness must
+// not touch that height in the store meanwhile).
+func (s *bSys) pausedHeight() (uint64, bool) {
+	p := s.pausedNow()
+	switch {
+	case p == nil:
+		return 0, false
+	case p.actor == "avail":
+		return s.avH, true
+	case len(s.queue) > 0:
+		return s.queue[0].H, true
+	}
+	return 0, false
 }
 
 // ---------------------------------------------------------------- events
@@ -608,6 +654,10 @@ func (s *bSys) Enabled() []string {
 			ev = append(ev, "get:"+a)
 		}
 	}
+	paused := s.pausedNow() != nil
+	if paused {
+		ev = append(ev, "resume:ok", "resume:fail")
+	}
 	switch s.phase {
 	case bRunning:
 		if len(s.queue) < 1+s.cfg.Queue && len(s.queue) <= len(s.cfg.Sources) {
@@ -620,9 +670,12 @@ func (s *bSys) Enabled() []string {
 				}
 			}
 		}
-		if s.armed == "" {
+		if s.armed == "" && !paused {
 			for _, k := range s.cfg.Faults {
 				ev = append(ev, "fault:"+k)
+			}
+			for _, k := range s.cfg.Pauses {
+				ev = append(ev, "fault:pause-"+k)
 			}
 		}
 		if s.cfg.Avail && !s.avRunning {
@@ -632,10 +685,10 @@ func (s *bSys) Enabled() []string {
 				}
 			}
 		}
-		if s.cfg.Tick && len(s.queue) == 0 {
+		if s.cfg.Tick && len(s.queue) == 0 && !paused {
 			ev = append(ev, "tick")
 		}
-		if s.cfg.Stop && len(s.queue) <= 1 && !s.avRunning {
+		if s.cfg.Stop && len(s.queue) <= 1 && !s.avRunning && !paused {
 			ev = append(ev, "stop")
 		}
 	case bStopped:
@@ -670,6 +723,7 @@ func (s *bSys) Apply(ev string) error {
 	s.hist = append(s.hist, ev)
 	s.fired = map[string]string{}
 	s.actor = ""
+	s.resumed = ""
 	parts := strings.Split(ev, ":")
 	switch parts[0] {
 	case "ann":
@@ -779,6 +833,21 @@ func (s *bSys) Apply(ev string) error {
 		default:
 			return fmt.Errorf("harness: bad event %q", ev)
 		}
+	case "resume":
+		p := s.pausedNow()
+		if p == nil {
+			return fmt.Errorf("harness: nothing is parked for %q", ev)
+		}
+		s.actor, s.resumed = p.actor, p.actor
+		var perr error
+		s.mu.Lock()
+		s.paused = nil
+		if parts[1] == "fail" {
+			s.fired[p.actor] = p.op
+			perr = errors.New("verif: injected I/O error")
+		}
+		s.mu.Unlock()
+		p.ch <- perr
 	case "tick":
 		s.actor = "listener"
 		time.Sleep(5 * bBlockTime)
@@ -829,66 +898,91 @@ func (s *bSys) settle() {
 		s.fail("%s", note)
 		return
 	}
-	for _, r := range reports {
-		if len(s.queue) == 0 {
-			s.fail("harness: the listener reports outcome %q for source %s but no announcement is outstanding", r.result, r.src)
-			return
-		}
-		head := s.queue[0]
-		s.queue = s.queue[1:]
-		if r.src != head.Src {
-			s.fail("C15/multisource/event-tagged-with-other-source: the announcement of height %d by %s was handled as coming from %s", head.H, head.Src, r.src)
-			return
-		}
-		s.verdict(head, r.result)
-		s.fetchAns, s.syncAns = "", ""
-		delete(s.fired, "listener")
-		if s.err != nil {
-			return
-		}
-	}
-	if s.phase == bStopped {
-		// announcements still travelling through the fan-in when the listener stopped are lost
-		// with it (they were never handled, so nothing is demanded of them)
-		s.queue = nil
-		s.fetchAns, s.syncAns = "", ""
-	}
-	if c := s.listenerCall(); c != nil {
-		if len(s.queue) == 0 {
-			s.fail("harness: listener-side %s call without an outstanding announcement", c.kind)
-			return
-		}
-		head := s.queue[0]
-		if c.kind == "fetch" && c.h != head.H {
-			s.fail("C15/listener/fetches-other-height: handling the announcement of height %d the listener fetches height %d", head.H, c.h)
-			return
-		}
-		if c.src != head.Src {
-			s.out.add("call-routed-to-other-source")
-		}
-	} else if s.phase == bRunning && len(s.queue) > 0 {
-		// the node is quiescent and waits for nobody: every delivered announcement was consumed,
-		// yet some produced neither a fetch nor an outcome report
-		for _, a := range s.queue {
-			b := s.blocks[a.H]
-			if !s.stored[a.H] && !s.edge(b) && !s.mustNotKeep(b) {
-				s.fail("C15/listener/announcement-consumed-without-outcome: the announcement of height %d by %s was consumed without a fetch and without an outcome report although nothing is stored under that height", a.H, a.Src)
+	paused := s.pausedNow() != nil
+	listenerPart := func() {
+		for _, r := range reports {
+			if len(s.queue) == 0 {
+				s.fail("harness: the listener reports outcome %q for source %s but no announcement is outstanding", r.result, r.src)
+				return
+			}
+			head := s.queue[0]
+			s.queue = s.queue[1:]
+			if r.src != head.Src {
+				s.fail("C15/multisource/event-tagged-with-other-source: the announcement of height %d by %s was handled as coming from %s", head.H, head.Src, r.src)
+				return
+			}
+			s.verdict(head, r.result)
+			s.fetchAns, s.syncAns = "", ""
+			delete(s.fired, "listener")
+			if s.err != nil {
 				return
 			}
 		}
-		s.queue = nil
+		if s.phase == bStopped {
+			// announcements still travelling through the fan-in when the listener stopped are lost
+			// with it (they were never handled, so nothing is demanded of them)
+			s.queue = nil
+			s.fetchAns, s.syncAns = "", ""
+		}
+		if c := s.listenerCall(); c != nil {
+			if len(s.queue) == 0 {
+				s.fail("harness: listener-side %s call without an outstanding announcement", c.kind)
+				return
+			}
+			head := s.queue[0]
+			if c.kind == "fetch" && c.h != head.H {
+				s.fail("C15/listener/fetches-other-height: handling the announcement of height %d the listener fetches height %d", head.H, c.h)
+				return
+			}
+			if c.src != head.Src {
+				s.out.add("call-routed-to-other-source")
+			}
+		} else if paused && len(s.queue) > 0 && len(reports) == 0 {
+			if p := s.pausedNow(); p != nil && p.actor == "avail" {
+				s.out.add("listener-waits-on-store-while-put-parked")
+			}
+		} else if s.phase == bRunning && len(s.queue) > 0 && !paused {
+			// the node is quiescent and waits for nobody: every delivered announcement was consumed,
+			// yet some produced neither a fetch nor an outcome report. (While a put is parked the
+			// listener may be inside that put or wait for its stripe lock.)
+			for _, a := range s.queue {
+				b := s.blocks[a.H]
+				if !s.stored[a.H] && !s.edge(b) && !s.mustNotKeep(b) {
+					s.fail("C15/listener/announcement-consumed-without-outcome: the announcement of height %d by %s was consumed without a fetch and without an outcome report although nothing is stored under that height", a.H, a.Src)
+					return
+				}
+			}
+			s.queue = nil
+		}
 	}
-	// availability path
-	if s.avRunning {
+	availPart := func() {
+		if !s.avRunning {
+			return
+		}
 		select {
 		case err := <-s.avDone:
 			s.avRunning = false
 			s.avCancel()
 			s.availVerdict(s.avH, err)
 		default:
-			if s.getterCall() == nil {
+			if s.getterCall() == nil && !paused {
 				s.fail("harness: availability check neither returned nor waits for the getter")
+			} else if p := s.pausedNow(); p != nil && p.actor == "listener" && s.getterCall() == nil {
+				s.out.add("avail-waits-on-store-while-put-parked")
 			}
+		}
+	}
+	// When a parked put is released, its own ingest finishes before anything that waited for its
+	// stripe lock: judge in that order.
+	if s.resumed == "avail" {
+		availPart()
+		if s.err == nil {
+			listenerPart()
+		}
+	} else {
+		listenerPart()
+		if s.err == nil {
+			availPart()
 		}
 	}
 }
@@ -1025,8 +1119,12 @@ func (s *bSys) observe() {
 		return
 	}
 	ctx := context.Background()
+	ph, parked := s.pausedHeight()
 	for _, h := range s.hs {
 		b := s.blocks[h]
+		if parked && h == ph {
+			continue // a put of this height is parked and holds its stripe locks
+		}
 		has, err := s.st.HasByHeight(ctx, h)
 		if err != nil {
 			s.fail("C15/store/has-error: HasByHeight(%d): %v", h, err)
@@ -1086,7 +1184,7 @@ func (s *bSys) observe() {
 				return
 			}
 		}
-		if !b.empty {
+		if !b.empty && !parked {
 			q4, err := s.st.HasQ4ByHash(ctx, b.roots.Hash())
 			if err != nil {
 				s.fail("C15/store/has-error: HasQ4ByHash(%d): %v", h, err)
@@ -1097,7 +1195,7 @@ func (s *bSys) observe() {
 				return
 			}
 			s.out.add(fmt.Sprintf("stored:%s/q4=%v", b.spec.TC, q4))
-		} else {
+		} else if b.empty {
 			s.out.add("stored:" + b.spec.TC + "/empty-link")
 		}
 	}
@@ -1132,6 +1230,16 @@ func (s *bSys) Fingerprint() string {
 	s.mu.Lock()
 	defer s.mu.Unlock()
 	fmt.Fprintf(&sb, "ph=%d armed=%s|q=", s.phase, s.armed)
+	parkedH, parked := uint64(0), false
+	if p := s.paused; p != nil {
+		parked = true
+		if p.actor == "avail" {
+			parkedH = s.avH
+		} else if len(s.queue) > 0 {
+			parkedH = s.queue[0].H
+		}
+		fmt.Fprintf(&sb, "parked=%s/%s/%d|", p.op, p.actor, parkedH)
+	}
 	for _, a := range s.queue {
 		fmt.Fprintf(&sb, "%d%s,", a.H, a.Src)
 	}
@@ -1148,7 +1256,10 @@ func (s *bSys) Fingerprint() string {
 		b := s.blocks[h]
 		if s.edge(b) {
 			edgeIn = availability.IsWithinWindow(vBlockTime(b.spec.TC), vWindow)
-			has, _ := s.st.HasByHeight(context.Background(), h)
+			has := false
+			if !parked || parkedH != h {
+				has, _ = s.st.HasByHeight(context.Background(), h)
+			}
 			fmt.Fprintf(&sb, "(edge:%v,%v)", edgeIn, has)
 		}
 		fmt.Fprintf(&sb, "%d:%v/%d/%d/%d,", h, s.stored[h], s.pubs[h], s.notifs[h], s.okIng[h])
@@ -1191,6 +1302,13 @@ func (s *bSys) Close() {
 		}
 		if c := s.getterCall(); c != nil {
 			s.answer(c, bAns{err: context.Canceled})
+			progressed = true
+		}
+		if p := s.pausedNow(); p != nil {
+			s.mu.Lock()
+			s.paused = nil
+			s.mu.Unlock()
+			p.ch <- nil
 			progressed = true
 		}
 		if s.phase == bStopping {
